@@ -85,13 +85,13 @@ def scramble(kind, state, enable):
 
 def configs(tier):
     if tier == "quick":
-        return [dict(dut="replica", mode="cycle", kinds="dzc", maxrun=5, scramble=1),
-                dict(dut="replica", mode="cycle", kinds="mkc", maxrun=5, scramble=1),
-                dict(dut="replica", mode="cycle", kinds="dc", maxrun=20, scramble=1),
-                dict(dut="replica", mode="cycle", kinds="mc", maxrun=3, scramble=0),
-                dict(dut="layer", mode="macro", kinds="d", menu=[1, 3, 88], depth=10, scramble=1),
-                dict(dut="layer", mode="macro", kinds="m", menu=[2, 89, 177], depth=8, scramble=1),
-                dict(dut="layer", mode="macro", kinds="z", menu=[1, 87, 265], depth=8, scramble=1)]
+        return [dict(dut="replica", mode="cycle", kinds="dzc", maxrun=3, scramble=1),
+                dict(dut="replica", mode="cycle", kinds="mkc", maxrun=3, scramble=1),
+                dict(dut="replica", mode="cycle", kinds="dc", maxrun=10, scramble=1),
+                dict(dut="replica", mode="cycle", kinds="mc", maxrun=2, scramble=0),
+                dict(dut="layer", mode="macro", kinds="d", menu=[1, 3, 88], depth=8, scramble=1),
+                dict(dut="layer", mode="macro", kinds="m", menu=[2, 89, 177], depth=7, scramble=1),
+                dict(dut="layer", mode="macro", kinds="z", menu=[1, 87, 265], depth=7, scramble=1)]
     return [dict(dut="replica", mode="cycle", kinds="dmzkc", maxrun=16, scramble=1),
             dict(dut="replica", mode="cycle", kinds="dc", maxrun=511, scramble=1),
             dict(dut="replica", mode="cycle", kinds="dzc", maxrun=8, scramble=0),
@@ -153,7 +153,7 @@ class TxCtcSpec(Spec):
 
     def __init__(self, cfg, tier):
         super().__init__(cfg, tier)
-        self.time_budget = 33 if tier == "quick" else 840
+        self.time_budget = 150 if tier == "quick" else 840      # generous: results must not depend on machine load
         self.enable = cfg.get("scramble", 1)
         self.max_owed = cfg.get("max_owed", 4)
         self.maxrun = cfg.get("maxrun")
